@@ -35,6 +35,7 @@ abbrev Path := List Seg
     `executeSelections` allocated for the object at response path `p`. -/
 inductive Val where
   | null
+  | unit                         -- struct{}{}: the value of `After` (not nil)
   | scalar (s : String)
   | list (vs : List Val)
   | obj (p : Path) (n : Nat)
@@ -62,7 +63,7 @@ inductive Mode where
   | sync      -- the resolver returns the value / error directly
   | promise   -- the resolver returns a ResolvePromise fulfilled later by the idle handler
   | pre       -- the resolver returns a ResolvePromise that already holds its result
-  | meta      -- `__typename`: no resolver, the slot is set directly
+  | tname     -- `__typename`: no resolver, the slot is set directly
   deriving DecidableEq, Repr, Inhabited
 
 mutual
@@ -77,6 +78,8 @@ mutual
   inductive Field where
     | mk (key : String) (nn : Bool) (mode : Mode) (rerr : Option String) (c : Comp)
 end
+
+deriving instance Repr for Comp, Field
 
 instance : Inhabited Comp := ⟨.null⟩
 instance : Inhabited Field := ⟨.mk "" false .sync none .null⟩
@@ -154,6 +157,7 @@ def Fut.isReady : Fut → Bool
 
 def showVal : Val → String
   | .null => "null"
+  | .unit => "null"
   | .scalar s => s
   | .list vs => "[" ++ ",".intercalate (showVals vs) ++ "]"
   | .obj _ _ => "{}"
@@ -231,7 +235,7 @@ def mkJoin (fs : List Fut) : Fut :=
 def mkAfter (fs : List Fut) : Fut :=
   match scanReady fs with
   | .failed e => .ready (.err e)
-  | .done _ => .ready (.ok .null)
+  | .done _ => .ready (.ok .unit)
   | .pending => .after fs
 
 /-! ## The executor: building futures (executeSelections / executeField / completeValue) -/
@@ -247,6 +251,26 @@ def catchIfNullable (nn : Bool) (f : Fut) (S : Store) : Fut × Store :=
     `mkMap` of the check. -/
 def nonNullWrap (nn : Bool) (path : Path) (f : Fut) (S : Store) : Fut × Store :=
   if nn then mkMap (.nonNull ⟨path, nonNullMsg⟩) f S else (f, S)
+
+/-- `executeField`: call the resolver (event `start`), then either complete the value
+    (`completed` is `complete nn c itemPath`, passed in so that the recursion stays structural),
+    return the resolver's error, or adapt the promise with `Then(New(select…), continuation)`. -/
+def execField (nn : Bool) (mode : Mode) (rerr : Option String) (c : Comp) (itemPath : Path)
+    (completed : Store → Fut × Store) (S : Store) : Fut × Store :=
+  let S0 := S.push (.start itemPath)
+  match mode with
+  | .sync | .tname =>
+    match rerr with
+    | some msg => (.ready (.err ⟨itemPath, msg⟩), S0)
+    | none => completed S0
+  | .promise =>
+    let res : Res := match rerr with | some msg => .err ⟨[], msg⟩ | none => .ok .null
+    (.thenK nn c itemPath (.promise S0.nextId) none,
+     { S0 with nextId := S0.nextId + 1, outstanding := S0.outstanding ++ [⟨S0.nextId, itemPath, res⟩] })
+  | .pre =>
+    let res : Res := match rerr with | some msg => .err ⟨[], msg⟩ | none => .ok .null
+    (.thenK nn c itemPath (.promise S0.nextId) none,
+     { (S0.push (.fulfil itemPath)) with nextId := S0.nextId + 1, chan := S0.chan ++ [(S0.nextId, res)] })
 
 mutual
   /-- `completeValue(fieldType, fields, result, path)`; `nn` says whether fieldType is NonNull. -/
@@ -277,34 +301,17 @@ mutual
     | [] => (mkMapOkValue (.obj path n) (mkAfter acc), S)
     | .mk key nn mode rerr c :: rest =>
       match mode with
-      | .meta =>
+      | .tname =>
         -- resultMap.Set(i, responseKey, objectType.Name); continue
         execFields rest path n (i + 1) acc (S.push (.write path i key (match c with | .scalar s => .scalar s | _ => .null)))
       | _ =>
         let itemPath := path ++ [.key key]
-        let (f0, S1) := execField nn mode rerr c itemPath S
+        let (f0, S1) := execField nn mode rerr c itemPath (fun S' => complete nn c itemPath S') S
         let (f, S2) := catchIfNullable nn f0 S1
         match f with
         | .ready (.err e) => (.ready (.err e), S2)                  -- wait(ready) → return future.Err(err)
         | .ready (.ok v) => execFields rest path n (i + 1) acc (S2.push (.write path i key v))
         | f => execFields rest path n (i + 1) (acc ++ [.mapOk (.setSlot path i key) f]) S2
-  /-- `executeField`: call the resolver (event `start`), then either complete the value, return
-      the resolver's error, or adapt the promise with `Then(New(select…), continuation)`. -/
-  def execField (nn : Bool) (mode : Mode) (rerr : Option String) (c : Comp) (itemPath : Path) (S : Store) : Fut × Store :=
-    let S0 := S.push (.start itemPath)
-    match mode with
-    | .sync | .meta =>
-      match rerr with
-      | some msg => (.ready (.err ⟨itemPath, msg⟩), S0)
-      | none => complete nn c itemPath S0
-    | .promise =>
-      let res : Res := match rerr with | some msg => .err ⟨[], msg⟩ | none => .ok .null
-      (.thenK nn c itemPath (.promise S0.nextId) none,
-       { S0 with nextId := S0.nextId + 1, outstanding := S0.outstanding ++ [⟨S0.nextId, itemPath, res⟩] })
-    | .pre =>
-      let res : Res := match rerr with | some msg => .err ⟨[], msg⟩ | none => .ok .null
-      (.thenK nn c itemPath (.promise S0.nextId) none,
-       { (S0.push (.fulfil itemPath)) with nextId := S0.nextId + 1, chan := S0.chan ++ [(S0.nextId, res)] })
 end
 
 /-- The `Then` continuation of executeField applied to the delivered result. -/
@@ -347,20 +354,6 @@ end
 /-! ## poll -/
 
 mutual
-  def Fut.weight : Fut → Nat
-    | .ready _ => 1
-    | .promise _ => 1
-    | .map _ f => 1 + f.weight
-    | .mapOk _ f => 1 + f.weight
-    | .mapOkToAny f => 1 + f.weight
-    | .mapOkValue _ f => 1 + f.weight
-    | .thenK _ c _ f cont => 1 + Comp.weight c + f.weight + (match cont with | some g => g.weight | none => 0)
-    | .thenT _ a b f cont => 1 + a.weight + b.weight + f.weight + (match cont with | some g => g.weight | none => 0)
-    | .join fs => 1 + Fut.weightL fs
-    | .after fs => 1 + Fut.weightL fs
-  def Fut.weightL : List Fut → Nat
-    | [] => 0
-    | f :: fs => 1 + f.weight + Fut.weightL fs
   /-- A bound on the weight of the future `complete nn c …` builds (`complete_weight`). -/
   def Comp.weight : Comp → Nat
     | .null => 2
@@ -374,6 +367,26 @@ mutual
   def Field.weightL : List Field → Nat
     | [] => 0
     | .mk _ _ _ _ c :: fs => 6 + c.weight + Field.weightL fs
+end
+
+mutual
+  def Fut.weight : Fut → Nat
+    | .ready _ => 1
+    | .promise _ => 1
+    | .map _ f => 1 + f.weight
+    | .mapOk _ f => 1 + f.weight
+    | .mapOkToAny f => 1 + f.weight
+    | .mapOkValue _ f => 1 + f.weight
+    | .thenK _ c _ f cont => 1 + Comp.weight c + f.weight + Fut.weightO cont
+    | .thenT _ a b f cont => 1 + a.weight + b.weight + f.weight + Fut.weightO cont
+    | .join fs => 1 + Fut.weightL fs
+    | .after fs => 1 + Fut.weightL fs
+  def Fut.weightO : Option Fut → Nat
+    | none => 0
+    | some g => g.weight
+  def Fut.weightL : List Fut → Nat
+    | [] => 0
+    | f :: fs => 1 + f.weight + Fut.weightL fs
 end
 
 mutual
@@ -413,7 +426,7 @@ mutual
       match poll g S with
       | (g', S1, some r) =>
         let built := applyK nn c path r S1
-        if h : built.1.weight < (Fut.thenK nn c path g none).weight then
+        if _h : built.1.weight < (Fut.thenK nn c path g none).weight then
           match poll built.1 built.2 with
           | (_, S3, some r') => (.ready r', S3, some r')
           | (t', S3, none) => (.thenK nn c path g' (some t'), S3, none)
@@ -429,7 +442,7 @@ mutual
       | (g', S1, some r) =>
         let S2 := S1.push (.note ("then:" ++ tag ++ ":" ++ showRes r))
         let built := if r.isOk then construct a S2 else construct b S2
-        if h : built.1.weight < (Fut.thenT tag a b g none).weight then
+        if _h : built.1.weight < (Fut.thenT tag a b g none).weight then
           match poll built.1 built.2 with
           | (_, S3, some r') => (.ready r', S3, some r')
           | (t', S3, none) => (.thenT tag a b g' (some t'), S3, none)
@@ -448,13 +461,13 @@ mutual
     | .after fs =>
       match pollAll fs S with
       | (_, S1, .failed e) => (.ready (.err e), S1, some (.err e))
-      | (_, S1, .done _) => (.ready (.ok .null), S1, some (.ok .null))
+      | (_, S1, .done _) => (.ready (.ok .unit), S1, some (.ok .unit))
       | (fs', S1, .pending) => (.after fs', S1, none)
   termination_by f.weight
   decreasing_by
     all_goals first
-      | exact h
-      | (simp only [Fut.weight]; omega)
+      | assumption
+      | (simp only [Fut.weight, Fut.weightO]; omega)
   /--
   The loop of Join's and After's poll closure: `for i := range fs { f := &fs[i]; f.Poll(); if
   f.IsReady() { if !ok → return the error at once } else { ok = false } }` — children are polled in
@@ -526,18 +539,19 @@ result is transparent: `poll` already returns the result). `sched` is consumed o
 round. `fuel` bounds the number of idle rounds (`wait_fuel_sufficient`).
 -/
 def waitLoop : Nat → Fut → List Nat → Store → WaitResult × List Nat × Store
-  | fuel, f, sched, S =>
+  | 0, f, sched, S =>
+    match poll f S with
+    | (_, S1, some r) => (.done r, sched, S1)
+    | (_, S1, none) => (.outOfFuel, sched, S1)
+  | fuel + 1, f, sched, S =>
     match poll f S with
     | (_, S1, some r) => (.done r, sched, S1)
     | (f', S1, none) =>
-      match fuel with
-      | 0 => (.outOfFuel, sched, S1)
-      | fuel + 1 =>
-        if S1.outstanding.isEmpty then (.stuck, sched, { S1 with rounds := S1.rounds + 1 })
-        else
-          match sched with
-          | [] => waitLoop fuel f' [] (idleRound none S1)
-          | m :: ms => waitLoop fuel f' ms (idleRound (some m) S1)
+      if S1.outstanding.isEmpty then (.stuck, sched, { S1 with rounds := S1.rounds + 1 })
+      else
+        match sched with
+        | [] => waitLoop fuel f' [] (idleRound none S1)
+        | m :: ms => waitLoop fuel f' ms (idleRound (some m) S1)
 
 /-! ## Requests -/
 
@@ -566,9 +580,9 @@ def execSerial (fuel : Nat) : List Field → Nat → Nat → List Nat → Store 
   | [], n, _, sched, S => (.done (.ok (.obj [] n)), sched, S)
   | .mk key nn mode rerr c :: rest, n, i, sched, S =>
     match mode with
-    | .meta => execSerial fuel rest n (i + 1) sched (S.push (.write [] i key (match c with | .scalar s => .scalar s | _ => .null)))
+    | .tname => execSerial fuel rest n (i + 1) sched (S.push (.write [] i key (match c with | .scalar s => .scalar s | _ => .null)))
     | _ =>
-      let (f0, S1) := execField nn mode rerr c [.key key] S
+      let (f0, S1) := execField nn mode rerr c [.key key] (complete nn c [.key key]) S
       let (f, S2) := catchIfNullable nn f0 S1
       match waitLoop fuel f sched S2 with
       | (.done (.err e), sched', S3) => (.done (.err e), sched', S3)
@@ -608,26 +622,19 @@ def slotOf (mp : Path) (i : Nat) : List Entry → Option (String × Val)
 
 def quote (s : String) : String := "\"" ++ s ++ "\""
 
-mutual
-  /-- JSON text of a value; object slots are read from the log; an unset slot is `"":null`. -/
-  def render (fuel : Nat) (log : List Entry) : Val → String
-    | .null => "null"
-    | .scalar s => s
-    | .list vs => "[" ++ ",".intercalate (renderList fuel log vs) ++ "]"
-    | .obj p n =>
-      match fuel with
-      | 0 => "<fuel>"
-      | fuel + 1 => "{" ++ ",".intercalate (renderSlots fuel log p n 0) ++ "}"
-  def renderList (fuel : Nat) (log : List Entry) : List Val → List String
-    | [] => []
-    | v :: vs => render fuel log v :: renderList fuel log vs
-  def renderSlots (fuel : Nat) (log : List Entry) (p : Path) : Nat → Nat → List String
-    | 0, _ => []
-    | k + 1, i =>
-      (match slotOf p i log with
-       | some (key, v) => quote key ++ ":" ++ render fuel log v
-       | none => quote "" ++ ":null") :: renderSlots fuel log p k (i + 1)
-end
+/-- JSON text of a value; object slots are read from the log; an unset slot is `"":null`.
+    `fuel` bounds the nesting depth (`run` passes more than any value can have). -/
+def render : Nat → List Entry → Val → String
+  | 0, _, _ => "<fuel>"
+  | _ + 1, _, .null => "null"
+  | _ + 1, _, .unit => "null"
+  | _ + 1, _, .scalar s => s
+  | f + 1, log, .list vs => "[" ++ ",".intercalate (vs.map (render f log)) ++ "]"
+  | f + 1, log, .obj p n =>
+    "{" ++ ",".intercalate ((List.range n).map fun i =>
+      match slotOf p i log with
+      | some (key, v) => quote key ++ ":" ++ render f log v
+      | none => quote "" ++ ":null") ++ "}"
 
 def segText : Seg → String
   | .key s => quote s
@@ -645,7 +652,7 @@ structure Outcome where
 
 def run (rq : Request) : Outcome :=
   match execute rq with
-  | (.done (.ok v), S) => ⟨render (S.log.length + 1) S.log v, errorsOf S.log, S.rounds, S.nextId, S.log, S.crash⟩
+  | (.done (.ok v), S) => ⟨render (Field.weightL rq.fields + 3) S.log v, errorsOf S.log, S.rounds, S.nextId, S.log, S.crash⟩
   | (.done (.err _), S) => ⟨"null", errorsOf S.log, S.rounds, S.nextId, S.log, S.crash⟩
   | (.stuck, S) => ⟨"STUCK", errorsOf S.log, S.rounds, S.nextId, S.log, S.crash⟩
   | (.outOfFuel, S) => ⟨"OUT-OF-FUEL", errorsOf S.log, S.rounds, S.nextId, S.log, S.crash⟩
